@@ -1,9 +1,12 @@
-(* C04 — every recorded change can be replayed exactly; the recorded arrays stay aligned.
-   (Exact undo of single steps and of whole histories is evaluated per case by Corr.C04.holds on the
-   implementation's observations; it is not yet a theorem — see DESIGN.md.) *)
-From Coq Require Import List.
-From PM Require Import Model.Data Model.Tree Model.StepMap Model.Step Model.Transform Proofs.TransformProofs.
+(* C04 — every recorded change can be replayed exactly; the recorded arrays stay aligned; a replace step
+   is undone exactly by its inverse and the inverse's map is the inverted map.
+   (Exact undo of the other step types and of whole histories is evaluated per case by Corr.C04.holds on
+   the implementation's observations.) *)
+From Coq Require Import List ZArith.
+From PM Require Import Model.Data Model.Tree Model.StepMap Model.Step Model.Transform Spec.Tokens Proofs.TransformProofs
+  Proofs.ReplaceValid Proofs.SliceSides Proofs.SliceShape Proofs.TokenLaws Proofs.StepTokens.
 Import ListNotations.
+Local Open Scope nat_scope.
 
 (* any sequence of attempted steps (every high-level operation is such a sequence, possibly cut short by
    a refusal or an exception) leaves docs[i] --steps[i]--> docs[i+1] and maps[i] = steps[i].get_map() *)
@@ -27,3 +30,25 @@ Proof.
   exfalso. eapply H; eauto.
 Qed.
 Print Assumptions C04_rejected_step_changes_nothing.
+
+(* exact undo of a replace step: for every schema, valid document, range and slice (valid nodes off its open
+   sides), if the step applies and its inverse (built by ReplaceStep.invert from the ORIGINAL document)
+   applies to the result, the document that comes back has exactly the original token sequence *)
+Theorem C04_replace_step_undo : forall s from to sl structure doc d' inv d'',
+  check s doc = true ->
+  OpenOK s (sl_content sl) (sl_open_start sl) (sl_open_end sl) -> from <= to ->
+  apply s (SReplace from to sl structure) doc = ROk d' ->
+  invert_step s (SReplace from to sl structure) doc = Ok inv ->
+  apply s inv d' = ROk d'' ->
+  DT s d'' = DT s doc.
+Proof. exact replace_step_undo. Qed.
+Print Assumptions C04_replace_step_undo.
+
+(* the inverse step's position map maps every position exactly as the inverted original map does *)
+Theorem C04_replace_inverse_map : forall s from to sl structure doc inv,
+  Shape s (sl_content sl) (sl_open_start sl) (sl_open_end sl) -> from <= to ->
+  invert_step s (SReplace from to sl structure) doc = Ok inv ->
+  forall p a, map_result (get_map s inv) p a =
+              map_result (StepMap.invert (get_map s (SReplace from to sl structure))) p a.
+Proof. exact replace_step_inverse_map. Qed.
+Print Assumptions C04_replace_inverse_map.
